@@ -17,7 +17,7 @@ def main():
     gi = registry.KANI[a.group]
     s = kani_run.Scratch(a.repo)
     try:
-        pre = s.inject(gi['target'], gi['file'], 'verif_kani_' + a.group)
+        pre = s.inject(gi['target'], gi['file'], 'verif_kani_' + a.group, gi.get('mod_cfg'))
         names = [h for h, hi in gi['harnesses'].items()
                  if (not a.harness or h in a.harness) and (a.thorough or hi.get('tier', 'quick') == 'quick' or a.harness)]
         r = kani_run.run_kani(s, gi['package'], [pre + '::' + h for h in names],
